@@ -462,7 +462,59 @@ def composed_case(ctx, rng, idx):
                           feats)
 
 
+def baseline_case(ctx, rng, idx):
+    """measurements on a large baseline (a body weight of 1e5 mg, a time
+    stamp): the Gaussian-type estimators depend on differences only, so
+    shifting measurements and simulated measurements by the same constant
+    leaves score and sensitivities unchanged (up to the conditioning of the
+    two-pass variance, ~1e-11 here; a one-pass variance loses ~1e-6)"""
+    cname = ['GaussianFilter', 'GaussianKDEFilter',
+             'GaussianMixtureFilter'][idx % 3]
+    obs, sim, k, has_nan = gen(rng, cname)
+    # back to values of order one
+    sc_ = float(np.nanmax(np.abs(obs)))
+    obs, sim = obs / sc_, sim / sc_
+    shift = float(rng.choice([1e4, 1e5, 3e5])) * float(rng.choice([-1, 1]))
+    feats = {'family': 'baseline', 'class': cname, 'shift': shift,
+             'missing': has_nan}
+    ctx.case(('baseline', cname, shift, has_nan), True, sample=feats)
+    try:
+        f0 = make_filter(cname, obs.copy(), k)
+        f1 = make_filter(cname, obs + shift, k)
+        v0 = f0.compute_log_likelihood(sim)
+        v1 = f1.compute_log_likelihood(sim + shift)
+        s0, g0 = f0.compute_sensitivities(sim)
+        s1, g1 = f1.compute_sensitivities(sim + shift)
+    except Exception as e:      # noqa
+        ctx.violation_exc('evaluation_raises', e, {'case': feats}, feats)
+        return
+    ctx.count('baseline_shifts_compared')
+    sc = abs(v0) + 1
+    gs = 1 + float(np.max(np.abs(g0)))
+    # conditioning: differences of numbers of size |shift| carry an absolute
+    # rounding error ~1e-16 |shift|, i.e. a relative error 1e-16 |shift| / s
+    # in units of the smallest spread s of a cell of simulated values (a
+    # one-pass variance loses the SQUARE of that ratio)
+    s_min = float(np.min(np.std(sim, axis=0, ddof=1)))
+    ratio = abs(shift) / max(s_min, 1e-12)
+    rt_v, rt_g = 5e-14 * ratio, 1e-11 * ratio
+    ctx.maximum('baseline_shift_relerr_over_bound',
+                abs(v1 - v0) / (rt_v * sc))
+    if not (ctx.close(v1, v0, rtol=rt_v, scale=sc) and
+            ctx.close(s1, v0, rtol=rt_v, scale=sc)):
+        ctx.violation('invariance', 'not_invariant:%s:baseline_shift' % cname,
+                      {'score': v0, 'score_on_the_baseline': v1,
+                       's1_score_on_the_baseline': s1, 'shift': shift},
+                      feats)
+    elif not ctx.close(np.asarray(g1, dtype=float),
+                       np.asarray(g0, dtype=float), rtol=rt_g, scale=gs):
+        ctx.violation('invariance',
+                      'not_invariant:%s:baseline_shift_gradient' % cname,
+                      {'shift': shift}, feats)
+
+
 FAMILIES = [
+    Family('baseline', baseline_case, quick=150, thorough=1500),
     Family('base', base_case, quick=3000, thorough=60000),
     Family('composed', composed_case, quick=1000, thorough=20000),
 ]
